@@ -51,10 +51,15 @@ def gen_case(rng, tier="quick"):
         n = rng.randrange(3, 6)
     else:
         n = rng.randrange(2, 7)
-    d = 3 if (n <= 3 and rng.random() < 0.25) else 2
+    # site dimensions may differ along the chain
+    dims = [3 if (n <= 4 and rng.random() < 0.25) else 2 for _ in range(n)]
+    if kind in ("two_site", "commuting"):
+        while int(np.prod([x * x for x in dims])) > 1300:
+            dims[dims.index(3)] = 2
+    d = max(dims)
     steps = rng.randrange(1, 4 if n >= 5 else 5)
     case = {
-        "kind": kind, "n": n, "d": d, "steps": steps,
+        "kind": kind, "n": n, "d": d, "dims": dims, "steps": steps,
         "order": _pick(rng, [1, 2]), "dt": _pick(rng, [0.05, 0.1, 0.2]),
         "epsrel": _pick(rng, [1e-10, 1e-11]),
         "hseed": rng.randrange(1 << 30),
@@ -82,8 +87,8 @@ def gen_case(rng, tier="quick"):
     else:
         # exactness kinds: truncation must only ever remove numerical zeros
         case["epsrel"] = _pick(rng, [1e-13, 1e-14])
-    if d == 3:
-        case["pts"] = [p if p != "tempo" else "ancilla" for p in case["pts"]]
+    case["pts"] = [p if (p != "tempo" or dims[i] == 2) else "ancilla"
+                   for i, p in enumerate(case["pts"])]
     singles = list(range(n))
     tuples = []
     if n >= 2:
@@ -96,6 +101,20 @@ def gen_case(rng, tier="quick"):
     if n >= 3 and rng.random() < 0.3:
         tuples.append([0, 1, 2])
     case["tuples"] = tuples
+    # single-site control operations (unitary kicks) at drawn steps
+    ctrl = []
+    if kind in ("generic", "uncoupled") and rng.random() < 0.5:
+        seen = set()
+        for _ in range(rng.randrange(1, 4)):
+            c = [rng.randrange(n), rng.randrange(0, steps + 1),
+                 bool(rng.randrange(2)), rng.randrange(1 << 16)]
+            # never two controls on the same (site, step, pre/post): the
+            # order in which stacked controls compose is C18's subject (and
+            # differs between Control and ChainControl), not C10's
+            if tuple(c[:3]) not in seen:
+                seen.add(tuple(c[:3]))
+                ctrl.append(c)
+    case["controls"] = ctrl
     return case
 
 
@@ -109,6 +128,7 @@ def shrink(case):
     if case["n"] > 2 and case["kind"] in ("generic", "commuting"):
         n = case["n"] - 1
         out.append(dict(case, n=n, pts=case["pts"][:n],
+                        dims=case["dims"][:n],
                         initial=case["initial"][:n],
                         tuples=[t for t in case["tuples"] if max(t) < n]))
     if any(p != "none" for p in case["pts"]):
@@ -117,6 +137,8 @@ def shrink(case):
         out.append(dict(case, dissipation=False))
     if case["tuples"]:
         out.append(dict(case, tuples=case["tuples"][:-1]))
+    if case.get("controls"):
+        out.append(dict(case, controls=case["controls"][:-1]))
     if case["regime"] != "permuted":
         out.append(dict(case, regime="permuted"))
     return out
@@ -144,12 +166,13 @@ def site_terms(case):
     """Plain description of the chain: site Hamiltonians, dissipators,
     couplings (lists of operator pairs)."""
     rng = np.random.default_rng(case["hseed"])
-    n, d = case["n"], case["d"]
+    n, dims = case["n"], case["dims"]
     diag = case["kind"] == "commuting"
     mk = _diag_herm if diag else _herm
-    hs = [mk(rng, d, 0.8) for _ in range(n)]
+    hs = [mk(rng, dims[i], 0.8) for i in range(n)]
     diss = []
-    for _ in range(n):
+    for i in range(n):
+        d = dims[i]
         if not case["dissipation"]:
             diss.append([])
         elif diag:
@@ -159,16 +182,18 @@ def site_terms(case):
             a = rng.normal(size=(d, d)) + 1j * rng.normal(size=(d, d))
             diss.append([(a / 2, float(abs(rng.normal()) * 0.3))])
     nn = []
-    for _ in range(n - 1):
+    for i in range(n - 1):
         if case["kind"] == "uncoupled":
             nn.append([])
         else:
-            nn.append([(mk(rng, d, 0.7), mk(rng, d, 0.7)) for _ in range(2)])
+            nn.append([(mk(rng, dims[i], 0.7), mk(rng, dims[i + 1], 0.7))
+                       for _ in range(2)])
     nn_diss = []
-    for _ in range(n - 1):
+    for i in range(n - 1):
         if case["kind"] == "two_site" and case["dissipation"]:
+            d, d2 = dims[i], dims[i + 1]
             a = rng.normal(size=(d, d)) + 1j * rng.normal(size=(d, d))
-            b = rng.normal(size=(d, d)) + 1j * rng.normal(size=(d, d))
+            b = rng.normal(size=(d2, d2)) + 1j * rng.normal(size=(d2, d2))
             nn_diss.append([(a / 2, b / 2, 0.2)])
         else:
             nn_diss.append([])
@@ -176,9 +201,9 @@ def site_terms(case):
 
 
 def initial_states(case):
-    d = case["d"]
     out = []
     for i, k in enumerate(case["initial"]):
+        d = case["dims"][i]
         rng = np.random.default_rng(1000 + 7 * i + k)
         a = rng.normal(size=(d, d)) + 1j * rng.normal(size=(d, d))
         rho = a @ a.conj().T
@@ -229,7 +254,7 @@ def process_tensors(case):
         if kind == "none":
             out.append(None)
         elif kind == "ancilla":
-            out.append(ancilla_pt(case["d"], case["steps"], case["dt"],
+            out.append(ancilla_pt(case["dims"][i], case["steps"], case["dt"],
                                   case["hseed"] % 1000 + i))
         else:
             key = i % 2
@@ -246,11 +271,33 @@ def process_tensors(case):
     return out
 
 
+def control_superop(d, seed):
+    """A unitary kick U rho U^dagger as a Liouville-space matrix."""
+    from oqupy import operators as opr
+    from scipy.linalg import expm
+    rng = np.random.default_rng(seed)
+    u = expm(1j * _herm(rng, d, 0.9))
+    return opr.left_right_super(u, u.conj().T)
+
+
+def chain_control(case):
+    import oqupy
+    if not case.get("controls"):
+        return None
+    cc = oqupy.ChainControl(list(case["dims"]))
+    for site, step, post, seed in case["controls"]:
+        if site < case["n"]:
+            cc.add_single_site_control(
+                control_superop(case["dims"][site], seed), site, step,
+                post=post)
+    return cc
+
+
 def build_chain(case):
     import oqupy
     hs, diss, nn, nn_diss = site_terms(case)
-    n, d = case["n"], case["d"]
-    chain = oqupy.SystemChain([d] * n)
+    n = case["n"]
+    chain = oqupy.SystemChain(list(case["dims"]))
     for i in range(n):
         chain.add_site_hamiltonian(i, hs[i])
         for op, g in diss[i]:
@@ -272,6 +319,7 @@ def run_tebd(case, pts, parallel):
     sites = list(range(case["n"])) + [tuple(t) for t in case["tuples"]]
     cfg = {} if parallel is None else {"parallel": parallel}
     tebd = oqupy.PtTebd(mps, chain, pts, pars, dynamics_sites=sites,
+                        chain_control=chain_control(case),
                         backend_config=cfg)
     res = tebd.compute(case["steps"], progress_type="silent")
     out = {"time": np.array(res["time"]), "norm": np.array(res["norm"])}
@@ -294,14 +342,14 @@ def dense_reference(case):
     from oqupy import operators as opr
     from scipy.linalg import expm
     hs, diss, nn, nn_diss = site_terms(case)
-    n, d = case["n"], case["d"]
-    dd = d * d
-    dim = dd ** n
+    n, dims = case["n"], case["dims"]
+    dds = [x * x for x in dims]
+    dim = int(np.prod(dds))
     full = np.zeros((dim, dim), dtype=complex)
 
     def embed(op, first, span):
-        left = np.identity(dd ** first)
-        right = np.identity(dd ** (n - first - span))
+        left = np.identity(int(np.prod(dds[:first])))
+        right = np.identity(int(np.prod(dds[first + span:])))
         return np.kron(np.kron(left, op), right)
     for i in range(n):
         full += embed(_site_liouvillian(hs[i], diss[i]), i, 1)
@@ -327,7 +375,6 @@ def dense_reference(case):
     for r in rho0:
         vec = np.kron(vec, r.reshape(-1))
     prop = expm(full * case["dt"])
-    tr = np.identity(d, dtype=complex).reshape(-1)
     out = {}
     sites = [[i] for i in range(n)] + case["tuples"]
     states = [vec]
@@ -336,15 +383,20 @@ def dense_reference(case):
     for s in sites:
         track = []
         for v in states:
-            t = v.reshape([dd] * n)
+            t = v.reshape(dds)
             # contract every site not in s with the trace vector
             for i in reversed(range(n)):
                 if i not in s:
+                    tr = np.identity(dims[i], dtype=complex).reshape(-1)
                     t = np.tensordot(t, tr, axes=(i, 0))
             k = len(s)
-            t = t.reshape([d, d] * k)
+            shp = []
+            for i in s:
+                shp += [dims[i], dims[i]]
+            t = t.reshape(shp)
             perm = [2 * j for j in range(k)] + [2 * j + 1 for j in range(k)]
-            track.append(t.transpose(perm).reshape(d ** k, d ** k))
+            big = int(np.prod([dims[i] for i in s]))
+            track.append(t.transpose(perm).reshape(big, big))
         key = str(s[0]) if len(s) == 1 else str(tuple(s))
         out[key] = np.array(track)
     return out
@@ -359,9 +411,16 @@ def single_site_reference(case, pts):
     for i in range(case["n"]):
         system = oqupy.System(hs[i], gammas=[g for _, g in diss[i]],
                               lindblad_operators=[op for op, _ in diss[i]])
+        control = None
+        for site, step, post, seed in case.get("controls") or []:
+            if site == i:
+                if control is None:
+                    control = oqupy.Control(case["dims"][i])
+                control.add_single(step, control_superop(case["dims"][i],
+                                                         seed), post=post)
         dyn = oqupy.compute_dynamics(
             system, rho0[i], dt=case["dt"], num_steps=case["steps"],
-            process_tensor=pts[i], progress_type="silent")
+            process_tensor=pts[i], control=control, progress_type="silent")
         out[str(i)] = np.array(dyn.states)
     # The chain state is the product of the site states, so the reduced state
     # of site i carries the traces of all other sites.  Those are 1 only up
@@ -439,12 +498,12 @@ def run_case(case, dec):
     if nerr > tol_norm:
         viol("norm_not_one", "%s/n%d" % (case["kind"], n),
              "|norm - 1| = %.3g (tolerance %.2g)" % (nerr, tol_norm))
-    tr = np.identity(d)
     for t in case["tuples"]:
         big = seq[str(tuple(t))]
         k = len(t)
+        tdims = [case["dims"][i] for i in t]
         for pos, site in enumerate(t):
-            red = big.reshape([len(big)] + [d] * (2 * k))
+            red = big.reshape([len(big)] + tdims + tdims)
             # trace out every factor but `pos`
             for j in reversed(range(k)):
                 if j != pos:
@@ -457,7 +516,6 @@ def run_case(case, dec):
                      "%s/tuple%d" % (case["kind"], k),
                      "reduced state of site %d from sites %s differs from "
                      "the single-site record by %.3g" % (site, t, err))
-    del tr
     if case["kind"] == "uncoupled":
         ref = single_site_reference(case, pts)
         for k in ref:
